@@ -477,3 +477,68 @@ VARIANTS["C10"] += [
       """            time_final_result = max(time_final_result, _time_result)""",
       """            time_final_result = _time_result"""),
 ]
+
+_PBTF = "syne_tune/optimizer/schedulers/pbt.py"
+VARIANTS["C20"] += [
+    B("PBT: the replaced trial is stopped without being marked", _PBTF,
+      """            # its checkpoint can be removed
+            state.stopped = True
+""",
+      """            # its checkpoint can be removed
+"""),
+    B("PBT: the trial that reached max_t is stopped without being marked", _PBTF,
+      """        if cost >= self.max_t:
+            state.stopped = True
+            return SchedulerDecision.STOP""",
+      """        if cost >= self.max_t:
+            return SchedulerDecision.STOP"""),
+    E("PBT: the mark is set through the state table", _PBTF,
+      """        if cost >= self.max_t:
+            state.stopped = True
+            return SchedulerDecision.STOP""",
+      """        if cost >= self.max_t:
+            self._trial_state[trial_id].stopped = True
+            return SchedulerDecision.STOP"""),
+]
+VARIANTS["C08"] += [
+    B("log-determinant as the log of the product of the diagonal", PU,
+      "    logdet_cholfact = 2.0 * anp.sum(anp.log(anp.abs(anp.diag(chol_fact))))",
+      "    logdet_cholfact = 2.0 * anp.log(anp.abs(anp.prod(anp.diag(chol_fact))))"),
+    E("log-determinant with the logs bound to a local first", PU,
+      "    logdet_cholfact = 2.0 * anp.sum(anp.log(anp.abs(anp.diag(chol_fact))))",
+      "    logs = anp.log(anp.abs(anp.diag(chol_fact)))\n    logdet_cholfact = 2.0 * anp.sum(logs)"),
+]
+VARIANTS["C05"] += [
+    B("one-slot rung picked by min / max over the raw rung", "syne_tune/optimizer/schedulers/synchronous/hyperband_bracket.py",
+      "    # Failed trials insert NaN's\n    rung_valid = [x for x in rung if not np.isnan(x[1])]",
+      "    if new_len == 1:\n        b = (max if mode == 'max' else min)(rung, key=itemgetter(1))[0]\n        return [b], [x[0] for x in rung if x[0] != b]\n    # Failed trials insert NaN's\n    rung_valid = [x for x in rung if not np.isnan(x[1])]"),
+]
+
+_SEEDSEL_OLD = """        seed = None
+        if self._seed is not None:
+            seed = self._seed
+        elif isinstance(self.blackbox, BlackboxTabular):
+            seed = self._seed_for_trial.get(trial_id)
+            if seed is None:
+                seed = np.random.randint(0, self.blackbox.num_seeds)
+                self._seed_for_trial[trial_id] = seed
+"""
+for _p in ("C10", "C11"):
+    VARIANTS[_p] += [
+        E("backend seed loaded first, per-trial lookup under `seed is None`", TAB, _SEEDSEL_OLD,
+          """        seed = self._seed
+        if seed is None and isinstance(self.blackbox, BlackboxTabular):
+            seed = self._seed_for_trial.get(trial_id)
+            if seed is None:
+                seed = np.random.randint(0, self.blackbox.num_seeds)
+                self._seed_for_trial[trial_id] = seed
+"""),
+        B("per-trial lookup also made when a backend seed is given", TAB, _SEEDSEL_OLD,
+          """        seed = self._seed
+        if isinstance(self.blackbox, BlackboxTabular):
+            seed = self._seed_for_trial.get(trial_id)
+            if seed is None:
+                seed = np.random.randint(0, self.blackbox.num_seeds)
+                self._seed_for_trial[trial_id] = seed
+"""),
+    ]
